@@ -695,6 +695,8 @@ pub fn run_hist<'p>(
                     None
                 } else {
                     match unhexs(h) {
+                        // both representations of a tag: owned, or (tags of odd byte length) borrowed
+                        Some(t) if t.len() % 2 == 1 => Some(std::borrow::Cow::Borrowed(&*Box::leak(t.into_boxed_str()))),
                         Some(t) => Some(std::borrow::Cow::Owned(t)),
                         None => return "bad-op".into(),
                     }
